@@ -1,0 +1,21 @@
+//go:build verif
+// +build verif
+
+package tag
+
+import "sort"
+
+// VC12TagPairs returns the (name, value) pairs of the tag set ordered by name, i.e. in the order
+// Line() prints them (verification hook for C12: the Set keeps its map private).
+func VC12TagPairs(s Set) [][2]string {
+	keys := make([]string, 0, len(s.tmap))
+	for k := range s.tmap {
+		keys = append(keys, k)
+	}
+	sort.Strings(keys)
+	res := make([][2]string, 0, len(keys))
+	for _, k := range keys {
+		res = append(res, [2]string{k, s.tmap[k]})
+	}
+	return res
+}
